@@ -151,6 +151,8 @@ R = {
     "det_level_state": tiered(round7.det_level_state),
     "idx_branch_stop": tiered(round7.idx_branch_stop),
     "exc_cast_spellings": tiered(round7.exc_cast_spellings),
+    "det_sampler_state": tiered(round7.det_sampler_state),
+    "own_meta_edges": tiered(round7.own_meta_edges),
     "sent_numeric_attrs": tiered(extra.sent_numeric_attrs),
     "ord_complete_loops": tiered(extra.ord_complete_loops),
     "own_mutable_defaults_layout": named("own_mutable_defaults_layout", own.own_mutable_defaults, "quick", tuple(own.SKIP_MODULES), 2),
@@ -371,6 +373,21 @@ _ROUND7_TEXT = {
     "C19": "the cis/trans correction moves the connected component of the cut graph that contains the target (no fixed number of pieces, no complement of the anchor's side)",
     "C20": "a ring index that is never closed in an all-atom fragment is rejected before the lenient pysmiles read (per-index marker count)",
 }
+_ROUND8_TEXT = {
+    "C01": "no container attribute of the resolver that is filled while a level is resolved survives into the next level",
+    "C03": "no container attribute filled per level survives into the next level; no method reachable from resolve() writes an edge of the coarse graph",
+    "C06": "the per-node graphs are rebuilt on every path of every level; no method reachable from resolve() writes an edge of the coarse graph",
+    "C07": "the order symbol of a ring bond and its marker are written to the same string (a deferred %nn marker takes its symbol with it)",
+    "C09": "no container attribute of the resolver that is filled while a level is resolved survives into the next level",
+    "C11": "no container attribute of the resolver that is filled while a level is resolved survives into the next level",
+    "C12": "no method reachable from resolve() writes an edge of the coarse graph",
+    "C16": "sample() and the methods it reaches assign no attribute of the sampler (only the random generator advances between two molecules)",
+    "C17": "sample() and the methods it reaches assign no attribute of the sampler (only the random generator advances between two molecules)",
+    "C14": "a second table handed to create_dialect does not become further positional slots",
+    "C20": "a second table handed to create_dialect does not become further positional slots (too many positional values stay an error)",
+}
+for _pid, _txt in _ROUND8_TEXT.items():
+    _ROUND7_TEXT[_pid] = (_ROUND7_TEXT[_pid] + "; " + _txt) if _pid in _ROUND7_TEXT else _txt
 for _pid, _txt in _ROUND7_TEXT.items():
     _sp = PROPERTIES[_pid]
     _sp["decided"] = _sp["decided"] + "; " + _txt
@@ -382,7 +399,10 @@ _ROUND7 = {
     "own_resolver_input": (["C12", "C06"], {"OWN.resolver-input": 2}),
     "ord_repetition_state": (["C05"], {"ORD.repetition-state": 1}),
     "prov_rdkit_source": (["C18"], {"PROV.rdkit-source": 3}),
-    "det_level_state": (["C06", "C02", "C10"], {"DET.level-state": 1}),
+    "det_level_state": (["C06", "C02", "C10", "C01", "C03", "C09", "C11"], {"DET.level-state": 1}),
+    "det_sampler_state": (["C16", "C17"], {"DET.sampler-state": 1}),
+    "own_meta_edges": (["C03", "C06", "C12"], {"OWN.meta-edges": 1}),
+    "ord_resolve_annotate": (["C06"], {}),
     "idx_branch_stop": (["C04"], {"IDX.branch-stop": 1}),
     "exc_cast_spellings": (["C14"], {"EXC.cast-spellings": 1}),
     # a `.` in front of one ring marker is the order of that ring bond only (zero-order ring bonds attach virtual nodes: C11)
